@@ -223,5 +223,11 @@ v('c04-linux-loopback-bit', 'C04', 'fire', LP, "        flags |= Config_TLV_Inte
 v('c04-linux-mac-shifted', 'C04', 'fire', LP, "    memcpy(out_mac->a, iface->macAddress, sizeof(out_mac->a));", "    memcpy(out_mac->a, iface->macAddress + 1, sizeof(out_mac->a) - 1);", 'R04.d')
 v('c04-benign-manual-be32', 'C04', 'silent', T, "    uint32_t wire = lltd_htonl(ifType);\n    lltd_port_memcpy(base + offset + sizeof(*hdr), &wire, sizeof(wire));", "    uint8_t wire[4];\n    wire[0] = (uint8_t)(ifType >> 24);\n    wire[1] = (uint8_t)(ifType >> 16);\n    wire[2] = (uint8_t)(ifType >> 8);\n    wire[3] = (uint8_t)ifType;\n    lltd_port_memcpy(base + offset + sizeof(*hdr), wire, sizeof(wire));")
 
+# ---- lessons from independently seeded changes (see /verif/seeded/*/meta.json)
+v('c07-seed-exact-fit-rejected', 'C07', 'fire', B, "        if (offset + sizeof(wire) > mtu) {\n            break;\n        }", "        if (mtu - offset <= sizeof(wire)) {\n            break;\n        }", 'R07.i', 'seeded/C07: an exactly fitting descriptor is not copied although it is announced and released')
+v('c02-seed-capacity-from-32', 'C02', 'fire', B, "        max_descs = (mtu - sizeof(lltd_demultiplex_header_t) - sizeof(*respH)) / sizeof(lltd_probe_desc_wire_t);", "        max_descs = (mtu - sizeof(lltd_demultiplex_header_t)) / sizeof(lltd_probe_desc_wire_t);", 'R02.4', 'seeded/C02: announces one descriptor more than the copy loop fits at mtu % 20 in {12,13}')
+v('c07-seed-capacity-from-32', 'C07', 'fire', B, "        max_descs = (mtu - sizeof(lltd_demultiplex_header_t) - sizeof(*respH)) / sizeof(lltd_probe_desc_wire_t);", "        max_descs = (mtu - sizeof(lltd_demultiplex_header_t)) / sizeof(lltd_probe_desc_wire_t);", 'R07')
+v('c07-benign-guard-rewritten', 'C07', 'silent', B, "        if (offset + sizeof(wire) > mtu) {\n            break;\n        }", "        if (mtu - offset < sizeof(wire)) {\n            break;\n        }", note='same guard written as a subtraction (mtu >= offset always holds here): no descriptor that fits is rejected')
+
 json.dump(V, open(os.path.join(HERE, 'variants.json'), 'w'), indent=1)
 print(len(V), 'variants')
